@@ -71,6 +71,9 @@ type vpScenario struct {
 	// UnassignDelayUS: every unassign call takes this long before it takes effect (a slow
 	// cloud: addresses stay "being removed" in the pool while still assigned in the cloud)
 	UnassignDelayUS int `json:"unassign_delay_us,omitempty"`
+	// CreateDelayUS: every interface creation takes this long (requests can be cancelled
+	// while the call is in flight)
+	CreateDelayUS int `json:"create_delay_us,omitempty"`
 }
 
 const vpPods = 8
@@ -155,7 +158,7 @@ func vpGenOp(t *rapid.T, mode string) vpOp {
 		// periodic sync marking a held address invalid.
 		kinds = []string{"alloc", "alloc", "alloc", "alloc", "alloc", "release", "release", "release", "syncpool", "syncpool", "syncpool", "sync", "sync", "cancelalloc", "glitch", "drift", "lateworker"}
 	case "C07":
-		kinds = append(kinds, "faults", "faults", "cancelalloc", "cancelalloc", "syncpool")
+		kinds = append(kinds, "faults", "faults", "cancelalloc", "cancelalloc", "syncpool", "cancelledcreate")
 	}
 	o := vpOp{Kind: rapid.SampledFrom(kinds).Draw(t, "kind")}
 	o.JitterUS = rapid.IntRange(0, 400).Draw(t, "jitter")
@@ -166,6 +169,13 @@ func vpGenOp(t *rapid.T, mode string) vpOp {
 		o.Kind = "alloc"
 		o.Pod = rapid.IntRange(0, vpPods-1).Draw(t, "pod")
 		o.CancelUS = rapid.IntRange(1, 3000).Draw(t, "cancel")
+	case "cancelledcreate":
+		// an interface creation that takes long and fails after it took effect, while the
+		// request that caused it is cancelled before the call returns
+		o.Pod = rapid.IntRange(0, vpPods-1).Draw(t, "pod")
+		o.CancelUS = rapid.IntRange(50, 1500).Draw(t, "cancel")
+		o.A = o.CancelUS + rapid.IntRange(200, 2500).Draw(t, "createdelay")
+		o.Faults = []cloudsim.Fault{{Kind: cloudsim.KCreate, Mode: cloudsim.FAfter, Code: rapid.SampledFrom(vpCodes).Draw(t, "fcode")}}
 	case "lateworker":
 		// a request whose pool worker notices the cancellation late: see doLateWorker
 		o.Pod = rapid.IntRange(0, vpPods-1).Draw(t, "pod")
@@ -194,6 +204,9 @@ func vpGen(mode string) func(t *rapid.T) vpScenario {
 		}
 		if rapid.IntRange(0, 2).Draw(t, "unassigndelay") == 0 {
 			s.UnassignDelayUS = rapid.IntRange(100, 3000).Draw(t, "unassigndelayus")
+		}
+		if rapid.IntRange(0, 2).Draw(t, "createdelay") == 0 {
+			s.CreateDelayUS = rapid.IntRange(200, 3000).Draw(t, "createdelayus")
 		}
 		nr := rapid.IntRange(1, vt.Scale(8, 20)).Draw(t, "rounds")
 		for i := 0; i < nr; i++ {
@@ -227,6 +240,9 @@ type vpWorld struct {
 
 	clock atomic.Int64 // logical time
 
+	opCreateDelayUS atomic.Int64 // delay of the next interface creation (cancelledcreate)
+	stuckWhat       string
+
 	mu       sync.Mutex // ledger lock; order: cloud lock -> ledger lock
 	hold     map[netip.Addr]vpHold
 	podRes   map[string]*LocalIPResource
@@ -243,6 +259,7 @@ type vpWorld struct {
 	faultAfter      bool
 	cancelled       bool
 	lateWorker      bool
+	cancelledCreate bool
 	staleRelease    bool
 	repeatAlloc     bool
 	allocOK, allocErr, allocTimeout int
@@ -540,6 +557,15 @@ func (w *vpWorld) hook(cl *cloudsim.Cloud, c *cloudsim.Call) {
 func (w *vpWorld) gate(c *cloudsim.Call) {
 	if (c.Kind == cloudsim.KUnAssign4 || c.Kind == cloudsim.KUnAssign6) && w.s.UnassignDelayUS > 0 {
 		time.Sleep(time.Duration(w.s.UnassignDelayUS) * time.Microsecond)
+	}
+	if c.Kind == cloudsim.KCreate {
+		d := w.opCreateDelayUS.Swap(0)
+		if d == 0 {
+			d = int64(w.s.CreateDelayUS)
+		}
+		if d > 0 {
+			time.Sleep(time.Duration(d) * time.Microsecond)
+		}
 	}
 	if c.Kind != cloudsim.KDelete {
 		return
@@ -856,6 +882,19 @@ func (w *vpWorld) doOp(o vpOp) {
 		w.doAlloc(o)
 	case "lateworker":
 		w.doLateWorker(o)
+	case "cancelledcreate":
+		w.cloud.SetFaults(o.Faults)
+		w.flag(func() { w.sawDriftOrFault = true; w.faultAfter = true })
+		w.opCreateDelayUS.Store(int64(o.A))
+		w.doAlloc(vpOp{Kind: "alloc", Pod: o.Pod, CancelUS: o.CancelUS})
+		// the pool batches requests for a while before it calls the cloud: stay in the round
+		// until the armed fault has been consumed and that call has returned (bounded)
+		for i := 0; i < 400 && (w.cloud.PendingFaults() > 0 || w.cloud.Inflight() > 0); i++ {
+			time.Sleep(50 * time.Microsecond)
+		}
+		if w.cloud.PendingFaults() == 0 {
+			w.flag(func() { w.cancelledCreate = true })
+		}
 	case "release":
 		pid := vpPodID(o.Pod)
 		w.release(pid, &daemon.CNI{PodName: fmt.Sprintf("p%d", o.Pod), PodNamespace: "ns", PodID: pid})
@@ -894,7 +933,12 @@ func (w *vpWorld) clearInhibit() {
 	for _, l := range w.locals {
 		l.cond.L.Lock()
 		l.ipAllocInhibitExpireAt = time.Time{}
-		l.cond.Broadcast()
+		// the broadcast stands for "the next request arrives after the inhibit period"; a
+		// slot whose interface is being deleted takes no requests, and an artificial wake-up
+		// there would hide a lost wake-up of the dispose worker
+		if l.status != statusDeleting {
+			l.cond.Broadcast()
+		}
 		l.cond.L.Unlock()
 	}
 }
@@ -959,6 +1003,49 @@ func (w *vpWorld) quiescent() bool {
 	return true
 }
 
+// stuck reports a slot whose interface is marked for removal (status Deleting, nothing on it
+// in use or pending) while the pool has been completely idle for a
+// second: no cloud call in flight, the call log unchanged, no request queued. The workers
+// have no timers (the harness sets the rate limiter to infinite), so nothing will ever
+// happen again without a further event: a lost wake-up. "" if the pool is merely busy.
+func (w *vpWorld) stuck() string {
+	what := ""
+	lastLog := -1
+	for i := 0; i < 40; i++ {
+		if w.cloud.Inflight() != 0 {
+			return ""
+		}
+		w.cloud.Lock()
+		n := len(w.cloud.Log)
+		w.cloud.Unlock()
+		if lastLog >= 0 && n != lastLog {
+			return ""
+		}
+		lastLog = n
+		cur := ""
+		for idx, l := range w.locals {
+			l.cond.L.Lock()
+			if l.allocatingV4.Len() != 0 || l.allocatingV6.Len() != 0 {
+				l.cond.L.Unlock()
+				return ""
+			}
+			// (addresses in state Deleting on an interface that is in use are not judged here:
+			// the periodic sync of an in-use interface ends with a broadcast, which wakes the
+			// dispose worker; a slot in status Deleting gets no such periodic wake-up)
+			if l.eni != nil && l.status == statusDeleting && l.canDispose() {
+				cur = fmt.Sprintf("slot %d still holds interface %s in status Deleting: it was not handed back", idx, l.eni.ID)
+			}
+			l.cond.L.Unlock()
+		}
+		if cur == "" {
+			return ""
+		}
+		what = cur
+		time.Sleep(25 * time.Millisecond)
+	}
+	return what
+}
+
 func (w *vpWorld) waitQuiescent(d time.Duration) bool {
 	deadline := time.Now().Add(d)
 	stable := 0
@@ -1021,6 +1108,12 @@ func (w *vpWorld) usage() vpUsage {
 // settle: healthy cloud, inhibit cleared, sync + balancer passes until nothing moves.
 func (w *vpWorld) settle() bool {
 	w.cloud.ClearFaults()
+	// before the harness causes any further event (clearInhibit broadcasts, the passes below
+	// issue requests): is something marked for removal while the pool is completely idle?
+	if what := w.stuck(); what != "" {
+		w.stuckWhat = what
+		return false
+	}
 	w.clearInhibit()
 	if !w.waitQuiescent(2 * time.Second) {
 		return false
@@ -1253,7 +1346,7 @@ func vpRunOpt(c *vt.Ctx, s vpScenario, noGuard bool) {
 		var ops []vpOp
 		nAlloc := 0
 		for _, o := range round {
-			if o.Kind == "alloc" || o.Kind == "release" || o.Kind == "lateworker" {
+			if o.Kind == "alloc" || o.Kind == "release" || o.Kind == "lateworker" || o.Kind == "cancelledcreate" {
 				if seen[o.Pod] {
 					continue
 				}
@@ -1288,11 +1381,24 @@ func vpRunOpt(c *vt.Ctx, s vpScenario, noGuard bool) {
 
 	if len(w.fails) == 0 && s.Mode == "C07" {
 		if !w.settle() {
-			w.report(c)
-			c.Inconclusive("not quiescent after settle")
+			what := w.stuckWhat
+			if what == "" {
+				what = w.stuck()
+			}
+			if what != "" {
+				// nothing is in flight, no request is pending and nothing has changed for a
+				// second, yet something the pool itself decided to hand back is still there:
+				// the pool IS quiescent, and what it created was neither kept nor handed back
+				w.failf("C07", "the pool is idle (no cloud call in flight, no request pending, no change for 1s) but %s", what)
+			} else {
+				w.report(c)
+				c.Inconclusive("not quiescent after settle")
+			}
 		}
-		w.checkAgreement(true)
-		w.checkBand()
+		if len(w.fails) == 0 {
+			w.checkAgreement(true)
+			w.checkBand()
+		}
 	}
 
 	w.report(c)
@@ -1330,6 +1436,9 @@ func (w *vpWorld) report(c *vt.Ctx) {
 	}
 	if w.lateWorker {
 		c.Label("late-worker")
+	}
+	if w.cancelledCreate {
+		c.Label("create-failed-after-effect-with-requester-cancelled")
 	}
 	if w.monitorNearCap {
 		c.Label("at-quota-boundary")
